@@ -194,6 +194,12 @@ class C06(Prop):
         else:
             if kind in ('ct_on', 'ct_on_pastified'):
                 base = lang.gen_signal(rng, n=rng.randint(2, 7), start=Fr(0))
+                if kind == 'ct_on' and lang.depth(f) <= 3 and rng.random() < 0.04:
+                    # hundreds of samples in one update (what a size-triggered code path would meet); the signals
+                    # hold their values over stretches
+                    base = lang.gen_signal(rng, n=rng.choice([257, 258, 300, 520]), start=Fr(0))
+                    case['cuts'] = rng.choice([[], [], [1], [259]])
+                    case['long'] = True
                 # often a small symmetric integer alphabet: values on thresholds, equal distances on both sides
                 vals = [-2.0, -1.0, 0.0, 1.0, 2.0] if rng.random() < 0.4 else lang.SMALL
                 sig = dict((k, [(t, rng.choice(vals)) for (t, _) in base]) for k in names)
@@ -359,6 +365,8 @@ class C06(Prop):
         try:
             if case.get('modular'):
                 v.info['class:modular'] = 1
+            if case.get('long'):
+                v.info['class:long-batches'] = 1
             got = self.run_real(kind, text, names, sem, io, data=None if dense else data, sig=sig if dense else None,
                                 modular=case.get('modular'), cuts=case.get('cuts'))
         except Exception as e:
